@@ -720,7 +720,6 @@ func main() {
 			return func() string { n++; return fmt.Sprintf("c%d-%d%s", idx, n, special[(idx+n)%len(special)]) }
 		}
 		cfgs := allConfigs()
-		deepLimit = h.Thorough()
 
 		// 1. exhaustive: every configuration x feature state x base operation, all canonical envelopes
 		for _, cfg := range cfgs {
@@ -772,6 +771,23 @@ func main() {
 					subs := append(canonical(t, o, ids(idx)), *rawGetSub(k, "variables"), *rawGetSub(k, "extensions"))
 					return w.run(cfg, true, o, t, subs)
 				})
+			}
+			if h.Thorough() && pi == 0 {
+				// the library's nesting limit at its real size: each of the two texts once per transport
+				for k := nRawKinds - 2; k < nRawKinds; k++ {
+					o, k, idx := o, k, h.Index()
+					h.Case(func(r *rng.R) sexp.Node {
+						nestFull = true
+						defer func() { nestFull = false }()
+						t := &table{}
+						id := ids(idx)
+						subs := canonical(t, o, id)
+						for choice := 0; choice < 3; choice++ {
+							subs = append(subs, *rawSubOn(o, k, choice, id))
+						}
+						return w.run(cfg, true, o, t, subs)
+					})
+				}
 			}
 			n := len(malformedSubs(&table{}, o, rng.New(1), ids(0)))
 			for k := 0; k < n; k += 4 {
